@@ -68,7 +68,7 @@ def norms(text):
 
 
 def judge(ctx, text, meta, eol, fix, mode, nperturbed, sigs):
-    case = dict(meta, options={'eol': eol, 'fixcounting': fix, 'mode': mode}, text=text if len(text) < 6000 else None)
+    case = dict(meta, options={'eol': eol, 'fixcounting': fix, 'mode': mode}, text=text if len(text) < 150000 else None)
     src = os.path.join(ctx.scratch, 'c20-in-%d.x12' % ctx.shard)
     outp = os.path.join(ctx.scratch, 'c20-out-%d.x12' % ctx.shard)
     for f in (src, outp):
